@@ -353,7 +353,8 @@ class CacheScenario(Scenario):
 
     def build(self):
         self.patch.set(VC, "threading", sched.shim())
-        self.cache = VC.SynchronizedCache(VC.LRUCache(cache_size=self.case["cap"]))
+        self.cache = VC.SynchronizedCache(VC.LRUCache(cache_size=self.case["cap"],
+                                                      mark_on_update=bool(self.case.get("mark", 1))))
         lk = getattr(self.cache, "_lock", None)
         if isinstance(lk, sched.CoopLock):
             lk.log = _LockLog(self.rec)
@@ -373,7 +374,7 @@ class CacheScenario(Scenario):
         if op == 0:
             v = c.get(key)
             return [0] if v is None else [1, from_value(CACHE_VALUES, v)]
-        if op == 1:
+        if op in (1, 7):          # 7: the same __setitem__ on a cache built with mark_on_update=False
             c[key] = to_value(CACHE_VALUES, call[2])
             return [5]
         if op == 2:
@@ -441,10 +442,29 @@ class TextScenario(Scenario):
         rec = self.rec
         real_vffp = TF.version_for_file_path
 
+        import errno
+        import vinegar.utils.version as VV
+        scen_ = self
+
         def vffp(p):
             i = rec.me()
             if i is not None:
                 rec.emit_to(i, 2)        # the stat step
+            if threading.get_ident() in _FAIL_FOR:
+                # a transient stat error other than ENOENT/EACCES while the file is being replaced; the file
+                # itself stays readable
+                _FAIL_FOR.discard(threading.get_ident())
+                real_os = VV.os
+                fake_os = types.SimpleNamespace(**{k: getattr(real_os, k) for k in dir(real_os) if not k.startswith("__")})
+
+                def failing_stat(*a, **k):
+                    raise OSError(errno.ESTALE, "Stale file handle")
+                fake_os.stat = failing_stat
+                VV.os = fake_os
+                try:
+                    return real_vffp(p)
+                finally:
+                    VV.os = real_os
             return real_vffp(p)
         self.patch.set(TF, "version_for_file_path", vffp)
         scen = self
@@ -486,6 +506,9 @@ class TextScenario(Scenario):
     def do(self, call):
         op = call[0]
         arg = call[-1]
+        if op in (4, 5):
+            _FAIL_FOR.add(threading.get_ident())       # this call's os.stat fails once
+            op = 0 if op == 4 else 1
         try:
             if op in (0, 2):
                 data, _version = self.src.get_data(str(arg), {}, "")
@@ -499,6 +522,8 @@ class TextScenario(Scenario):
             raise
         except FileNotFoundError:
             return [8]
+        finally:
+            _FAIL_FOR.discard(threading.get_ident())
 
     def post_calls(self):
         last = len(self.case["edits"])
@@ -645,7 +670,15 @@ def _memo_safe_load(text):
 def yaml_text(pairs):
     if [tuple(p) for p in pairs] == [(0, 0)]:
         return "{\n"                # an unparsable file version: compile_data raises
-    return "".join(f"{k}: {v}\n" for k, v in pairs) or "{}\n"
+    # values >= 100 stand for a literal block scalar with keep indicator whose value ends in (v - 99) line
+    # breaks: two such values differ ONLY in trailing line breaks of the file
+    out = ""
+    for k, v in pairs:
+        if v >= 100:
+            out += f"{k}: |+\n  x\n" + "\n" * (v - 100)
+        else:
+            out += f"{k}: {v}\n"
+    return out or "{}\n"
 
 
 class YamlScenario(Scenario):
@@ -715,7 +748,11 @@ class YamlScenario(Scenario):
             if "Error processing data file" in str(e):
                 return [8]
             raise
-        return [x for k, v in data.items() for x in (int(k), int(v))]
+        def unv(v):
+            if isinstance(v, str):
+                return 99 + (len(v) - len(v.rstrip("\n")))
+            return int(v)
+        return [x for k, v in data.items() for x in (int(k), unv(v))]
 
     def post_calls(self):
         return [[0]]
@@ -805,6 +842,25 @@ class C19(Check):
                      "calls": [[[0], [0]], [[0]]]}, b1))
         ygb = [[[(1, 1)], [(0, 0)]], [[(3, 1)]]]
         out.append(({"comp": "yaml", "table": ygb, "tree": [0, 1], "w0": [0, 0], "edits": [0], "calls": [[[0], [0]]]}, b2))
+        # LRU histories: fill the cache, UPDATE a key that is already cached (not the least recently used one),
+        # then look at the others; with and without mark_on_update
+        out.append(({"comp": "cache", "cap": 3, "mark": 1,
+                     "calls": [[[1, 1, 1], [1, 2, 2], [1, 3, 3], [1, 2, 9], [2, 1], [4], [0, 1]], [[0, 2], [4]]]}, 1))
+        out.append(({"comp": "cache", "cap": 3, "mark": 0,
+                     "calls": [[[7, 1, 1], [7, 2, 2], [7, 3, 3], [7, 2, 9], [2, 1], [4], [7, 4, 4], [2, 1], [2, 2]],
+                               [[0, 3], [4]]]}, 1))
+        out.append(({"comp": "cache", "cap": 2, "mark": 0,
+                     "calls": [[[7, 1, 1], [7, 2, 2], [7, 1, 5], [7, 3, 3], [2, 1], [2, 2], [0, 3]], [[2, 1]]]}, 1))
+        # a transient stat failure (ESTALE) at one call while the file is readable, before/after an edit
+        sf = {"comp": "text", "contents": [[(1, 10), (2, 20)], [(1, 11), (3, 20)]], "bad": [0, 0], "edits": [0],
+              "cache_enabled": 1}
+        out.append((dict(sf, calls=[[[0, 1], [4, 1], [0, 1]], [[5, 20], [0, 2]]]), b1))
+        out.append((dict(sf, calls=[[[4, 1], [0, 1]], [[0, 1]]]), b2))
+        # file states that differ only in the trailing line breaks of a final `|+` block scalar
+        ybs = [[[(1, 100)], [(1, 101)]], [[(3, 1)]]]
+        out.append(({"comp": "yaml", "table": ybs, "tree": [1, 0], "w0": [0, 0], "edits": [0], "calls": [[[0], [0]]]}, b2))
+        out.append(({"comp": "yaml", "table": ybs, "tree": [1, 0], "w0": [0, 0], "edits": [0],
+                     "calls": [[[0], [0]], [[0]]]}, b1))
         # value corners (falsy, sentinel-like, non-ASCII, nested, huge): every value position of the store and
         # of the cache; interleaving is irrelevant here, bound 1 suffices
         vs = list(range(7, len(STORE_VALUES)))
